@@ -300,8 +300,8 @@ fn order_free(s: &str) -> String {
             }
             match c {
                 '"' => quote = true,
-                '{' | '[' | '(' => depth += 1,
-                '}' | ']' | ')' => depth -= 1,
+                '{' | '[' | '(' | '<' => depth += 1,
+                '}' | ']' | ')' | '>' => depth -= 1,
                 ',' | '\n' if depth == 0 => {
                     parts.push(String::new());
                     continue;
@@ -338,7 +338,7 @@ fn order_free(s: &str) -> String {
                 i += 1;
                 continue;
             }
-            if matches!(c, '{' | '[' | '(') {
+            if matches!(c, '{' | '[' | '(' | '<') {
                 // matching close
                 let (mut depth, mut j, mut q, mut e) = (0i32, i, false, false);
                 while j < chars.len() {
@@ -353,9 +353,9 @@ fn order_free(s: &str) -> String {
                         }
                     } else if d == '"' {
                         q = true;
-                    } else if matches!(d, '{' | '[' | '(') {
+                    } else if matches!(d, '{' | '[' | '(' | '<') {
                         depth += 1;
-                    } else if matches!(d, '}' | ']' | ')') {
+                    } else if matches!(d, '}' | ']' | ')' | '>') {
                         depth -= 1;
                         if depth == 0 {
                             break;
@@ -365,7 +365,8 @@ fn order_free(s: &str) -> String {
                 }
                 let inner: String = chars[i + 1..j.min(chars.len())].iter().collect();
                 let mut parts: Vec<String> = split_top(&inner).iter().map(|p| norm(p)).collect();
-                if c == '{' {
+                if c == '{' || c == '<' {
+                    // (nested dictionaries print as <k=v, ..>)
                     parts.sort();
                 }
                 out.push(c);
